@@ -17,6 +17,7 @@ RULE = ("seeded random key columns (1-3 keys, classes int/float+NaN/str/bool/dat
         "key position, sorted prefixes of every length class, NaN inside a sorted prefix) x routes {factorize_1d, factorize_2d, "
         "monotonic_factorization, GroupBy plain, GroupBy with the chunking threshold scaled to 8 rows (chunked / monotonic / partially "
         "monotonic), GroupBy on pre-chunked arrow keys} x containers {ndarray, pd.Series, pa.array, pa.chunked_array, pl.Series, arrow-backed pd.Series}; "
+        "plus two integer keys with 66 000 / 70 000 labels each (more than 2^32 combinations: the typed-dict tracker) with mixed-radix keys exactly 2^32 apart planted; "
         "plus keys that are a pd.RangeIndex (any start, step of either sign, also as the first of several keys) and generic pd.Index keys; "
         "non-trivial = at least 2 rows with non-null key and 2 distinct labels or a null key; distinct = distinct (keys, classes, route, container)")
 ASSUMPTIONS = [
